@@ -1,3 +1,201 @@
--- stub: the driver of C09 is not built yet
+/-
+  Line-protocol driver of C09.
+
+    M chain <op>*                 → the model's observation (Wm.Chain.exec)
+    P chain <op>* ## <obs>        → the property monitor on the implementation's observation
+
+  op tokens:  R<ids>  router.AddMiddleware(ids...)        H<h>:<ids>  handler h .AddMiddleware(ids...)
+              A<h>p | A<h>n  AddHandler / AddNoPublisherHandler of handler "h<h>"
+              P<ids>  AddPublisherDecorators(ids...)      S<ids>      AddSubscriberDecorators(ids...)
+              RUN     Run (first) / RunHandlers (later), then one message through every started handler
+  ids = comma separated numbers.  Observation: one block per RUN, blocks separated by spaces, `none` without RUN;
+  block = `-` or `;`-separated entries `h<h>=<ev>.<ev>…` with ev ∈ s<i>c | s<i>n | e<i> | h | l<i> | p<i> | P.
+-/
 import WmModel.Basic
-def main : IO Unit := Wm.driverMain (fun _ => "bad-op")
+import WmModel.Chain
+open Wm Wm.Chain
+
+def splitOnChar (c : Char) : List Char → List (List Char)
+  | [] => [[]]
+  | x :: rest =>
+    match splitOnChar c rest with
+    | [] => [[]]
+    | cur :: more => if x == c then [] :: cur :: more else (x :: cur) :: more
+
+def natOf (cs : List Char) : Option Nat :=
+  if cs.isEmpty || !cs.all Char.isDigit then none else some (cs.foldl (fun n c => 10 * n + (c.toNat - 48)) 0)
+
+def idsOf (cs : List Char) : Option (List Nat) := (splitOnChar ',' cs).mapM natOf
+
+def hname (n : Nat) : String := "h" ++ toString n
+
+def opOf (tok : String) : Option Op :=
+  if tok == "RUN" then some .run else
+  match tok.toList with
+  | 'R' :: rest => (idsOf rest).map .routerMw
+  | 'P' :: rest => (idsOf rest).map .pubDec
+  | 'S' :: rest => (idsOf rest).map .subDec
+  | 'H' :: rest =>
+    match splitOnChar ':' rest with
+    | [h, ids] => do
+      let h ← natOf h
+      let ids ← idsOf ids
+      pure (.handlerMw (hname h) ids)
+    | _ => none
+  | 'A' :: rest =>
+    match rest.reverse with
+    | 'p' :: h => (natOf h.reverse).map fun h => .addHandler (hname h) true
+    | 'n' :: h => (natOf h.reverse).map fun h => .addHandler (hname h) false
+    | _ => none
+  | _ => none
+
+def evStr : Ev → String
+  | .sub i c => "s" ++ toString i ++ (if c then "c" else "n")
+  | .enter i => "e" ++ toString i
+  | .handler => "h"
+  | .leave i => "l" ++ toString i
+  | .pub i => "p" ++ toString i
+  | .published => "P"
+
+def blockStr (b : List (String × List Ev)) : String :=
+  if b.isEmpty then "-" else
+  ";".intercalate (b.map fun (n, t) => n ++ "=" ++ ".".intercalate (t.map evStr))
+
+def obsStr (obs : List (List (String × List Ev))) : String :=
+  if obs.isEmpty then "none" else " ".intercalate (obs.map blockStr)
+
+def model (toks : List String) : String :=
+  match toks.mapM opOf with
+  | none => "bad-op"
+  | some ops =>
+    match exec {} ops with
+    | none => "bad-op"
+    | some s => obsStr s.obs
+
+/-! ### the property, evaluated on an observation – written without `Wm.Chain.wrap`/`exec` -/
+
+/-- observed event token -/
+inductive Tok | s (i : Nat) | e (i : Nat) | h | l (i : Nat) | p (i : Nat) | P
+  deriving DecidableEq
+
+def tokOf (cs : List Char) : Option Tok :=
+  match cs with
+  | ['h'] => some .h
+  | ['P'] => some .P
+  | 'e' :: r => (natOf r).map .e
+  | 'l' :: r => (natOf r).map .l
+  | 'p' :: r => (natOf r).map .p
+  | 's' :: r =>
+    match r.reverse with
+    | 'c' :: d => (natOf d.reverse).map .s
+    | 'n' :: d => (natOf d.reverse).map .s
+    | _ => none
+  | _ => none
+
+def sameMultiset (a b : List Nat) : Bool :=
+  a.length == b.length && a.all (fun x => a.count x == b.count x)
+
+/-- the statement of C09 for one handler's one-message trace.
+    `own`: ids registered router-level or for this handler before it started, in registration order;
+    `foreign`: ids registered for other handlers (anywhere in the program);
+    `sd`/`pd`: decorator ids added before it started, in the order added. -/
+def judgeTrace (own foreign sd pd : List Nat) (hasPub : Bool) (t : List Tok) : String :=
+  let ss := t.takeWhile (fun x => match x with | .s _ => true | _ => false)
+  let r1 := t.drop ss.length
+  let es := r1.takeWhile (fun x => match x with | .e _ => true | _ => false)
+  let r2 := r1.drop es.length
+  match r2 with
+  | .h :: r3 =>
+    let ls := r3.takeWhile (fun x => match x with | .l _ => true | _ => false)
+    let r4 := r3.drop ls.length
+    let ps := r4.takeWhile (fun x => match x with | .p _ => true | _ => false)
+    let r5 := r4.drop ps.length
+    let sIds := ss.filterMap (fun x => match x with | .s i => some i | _ => none)
+    let eIds := es.filterMap (fun x => match x with | .e i => some i | _ => none)
+    let lIds := ls.filterMap (fun x => match x with | .l i => some i | _ => none)
+    let pIds := ps.filterMap (fun x => match x with | .p i => some i | _ => none)
+    if eIds.any (fun i => foreign.contains i && !own.contains i) then "violated:foreign_middleware"
+    else if !sameMultiset eIds own then "violated:exactly_router_level_plus_own"
+    else if eIds != own then "violated:nesting_order"
+    else if lIds != eIds.reverse then "violated:nesting_order"
+    else if sIds != sd then "violated:sub_decorator_order"
+    else if hasPub then
+      (if r5 != [.P] then "violated:shape" else if pIds != pd then "violated:pub_decorator_order" else "ok")
+    else (if !r5.isEmpty || !pIds.isEmpty then "violated:shape" else "ok")
+  | _ => "violated:shape"
+
+def parseEntry (cs : List Char) : Option (String × List Tok) :=
+  match splitOnChar '=' cs with
+  | [n, t] => do
+    let toks ← (splitOnChar '.' t).mapM tokOf
+    pure (String.ofList n, toks)
+  | _ => none
+
+def parseBlock (b : String) : Option (List (String × List Tok)) :=
+  if b == "-" then some [] else (splitOnChar ';' b.toList).mapM parseEntry
+
+def monitor (ops : List Op) (blocks : List String) : String := Id.run do
+  -- well-formedness of the program (same conditions as the API: a handler exists before it gets middleware, names unique)
+  let mut known : List String := []
+  for o in ops do
+    match o with
+    | .addHandler h _ => if known.contains h then return "bad-op" else known := known ++ [h]
+    | .handlerMw h _ => if !known.contains h then return "bad-op"
+    | _ => pure ()
+  let nRuns := (ops.filter (· == .run)).length
+  if blocks.length != nRuns then return "violated:shape"
+  let allForeign (h : String) : List Nat :=
+    ops.foldl (fun acc o => match o with | .handlerMw g ids => if g != h then acc ++ ids else acc | _ => acc) []
+  -- walk the program; `seen` = operations so far
+  let mut seen : List Op := []
+  let mut started : List (String × Bool × List Op) := []   -- handler, hasPub, operations that preceded its start
+  let mut rest := blocks
+  for o in ops do
+    if o == .run then
+      -- every handler added so far and not yet started starts now, after all of `seen`
+      for x in seen do
+        match x with
+        | .addHandler h p => if !(started.any (·.1 == h)) then started := started ++ [(h, p, seen)]
+        | _ => pure ()
+      match rest with
+      | [] => return "violated:shape"
+      | b :: more =>
+        rest := more
+        match parseBlock b with
+        | none => return "violated:shape"
+        | some entries =>
+          if entries.map (·.1) != started.map (·.1) then return "violated:shape"
+          for (h, t) in entries do
+            match started.find? (·.1 == h) with
+            | none => return "violated:shape"
+            | some (_, hasPub, pre) =>
+              let own := pre.foldl (fun acc x => match x with
+                | .routerMw ids => acc ++ ids
+                | .handlerMw g ids => if g == h then acc ++ ids else acc
+                | _ => acc) []
+              let sd := pre.foldl (fun acc x => match x with | .subDec ids => acc ++ ids | _ => acc) []
+              let pd := pre.foldl (fun acc x => match x with | .pubDec ids => acc ++ ids | _ => acc) []
+              let v := judgeTrace own (allForeign h) sd pd hasPub t
+              if v != "ok" then return v
+    seen := seen ++ [o]
+  return "ok"
+
+def handle (line : String) : String :=
+  match line.splitOn " " with
+  | "M" :: "chain" :: toks => model toks
+  | "P" :: "chain" :: rest =>
+    let toks := rest.takeWhile (· != "##")
+    let obs := (rest.dropWhile (· != "##")).drop 1
+    if obs.isEmpty then "bad-op" else
+    match toks.mapM opOf with
+    | none => "bad-op"
+    | some ops =>
+      if obs == ["none"] then monitor ops []
+      else if let [o] := obs then
+        (if o.startsWith "crash(" || o.startsWith "panic(" then "violated:crash"
+         else if o.startsWith "timeout" || o.startsWith "run-returned" || o.startsWith "runhandlers-error" then "violated:not_processed"
+         else monitor ops obs)
+      else monitor ops obs
+  | _ => "bad-op"
+
+def main : IO Unit := driverMain handle
